@@ -1101,7 +1101,11 @@ class Engine:
             if isinstance(cell, dict) and cell.get("__kind__") == "dict":
                 return self.dict_getitem(st, cell, iv, node)
         if isinstance(base, VAny):
-            raise Unsupported("subscript on dynamically typed value")
+            # subscript of a dynamically typed value (e.g. a dict inside a tuple): an uninterpreted selection; whether
+            # the key exists is not modelled (recorded as an assumption)
+            if self.fr is not None:
+                self.fr.assumed_used.add("subscript of a dynamically typed value succeeds (no KeyError / IndexError modelled)")
+            return [(st, VAny(smt.any_item(base.t, box(self.deref(st, iv)))))]
         raise Unsupported(f"subscript on {base!r}")
 
     def ev_Attribute(self, e, st):
